@@ -13,8 +13,9 @@
                                                                   invariant), C20_lthash_order_independent
      engine: reported commitment = fold of the block's tx         C20_engine_reports_fold, C20_engine_slices,
        sequence from the seed; seed rules                          C20_engine_seed_*
-     "unknown parents fall back to the parent block hash"         REFUTED for the faithful model:
-                                                                  C20_engine_unknown_parent_refuted (+ residual)
+     "unknown parents fall back to the parent block hash"         C20_engine_unknown_parent, C20_engine_ended_block_never_seed
+                                                                  (current code, all histories); refuted for the pinned
+                                                                  variant: C20_pinned_engine_unknown_parent_refuted
    Partial: Arc sharing is not modelled (persistent tree) - isolation of the implementation's copy-on-write is
    decided by the correspondence check; the LtHash theorems assume the entry hash yields 1024 lanes below
    2^16 (true of the SHA-256 counter-mode expansion, not proved about Lib/Sha256.v). *)
@@ -99,14 +100,15 @@ Theorem C20_lthash_is_sum : forall he, (forall k v, vok NUM_LANES (he k v)) ->
   forall c, lt_of_contents he c = sumh he c.
 Proof. exact lt_of_contents_sum. Qed.
 
-(* engine: every BlockExecuted event reports the fold of exactly the block's transactions (all slices, in
-   order) from the seed fixed at begin_block, and their number *)
-Theorem C20_engine_reports_fold : forall H genesis ops g,
-  eng_run H genesis (gerase H g) ops = map (g_eval H) (g_run H genesis g ops).
+(* engine (rekey = true: the current code, end_block files an ended block under Known(block_id);
+   rekey = false: the pinned tree).  Every BlockExecuted event reports the fold of exactly the block's
+   transactions (all slices, in order) from the seed fixed at begin_block, and their number - both variants *)
+Theorem C20_engine_reports_fold : forall H genesis rekey ops g,
+  eng_run H genesis rekey (gerase H g) ops = map (g_eval H) (g_run H genesis rekey g ops).
 Proof. exact engine_reports_fold. Qed.
-Theorem C20_engine_slices : forall H genesis e id a b,
-  fst (eng_step H genesis (fst (eng_step H genesis e (EExec id a))) (EExec id b)) =
-  fst (eng_step H genesis e (EExec id (a ++ b))).
+Theorem C20_engine_slices : forall H genesis rekey e id a b,
+  fst (eng_step H genesis rekey (fst (eng_step H genesis rekey e (EExec id a))) (EExec id b)) =
+  fst (eng_step H genesis rekey e (EExec id (a ++ b))).
 Proof. exact exec_slices. Qed.
 Theorem C20_engine_seed_genesis : forall genesis e, eng_seed genesis e None = genesis.
 Proof. exact seed_no_parent. Qed.
@@ -117,22 +119,57 @@ Theorem C20_engine_seed_fallback : forall genesis e (p : block_id),
   eng_get e (Known (fst p) (snd p)) = None -> eng_get e (Pending (fst p)) = None ->
   eng_seed genesis e (Some p) = snd p.
 Proof. exact seed_unknown_parent. Qed.
-(* the faithful model takes ANY pending block of the parent's slot for the parent ... *)
+(* a block STILL pending in the parent's slot (hash not yet known) is taken for the parent *)
 Theorem C20_engine_seed_pending_slot : forall genesis e (p : block_id) x,
   eng_get e (Known (fst p) (snd p)) = None -> eng_get e (Pending (fst p)) = Some x ->
   eng_seed genesis e (Some p) = be_hash x.
 Proof. exact seed_pending_slot. Qed.
-(* ... so "a block whose parent was never executed reports the fold from the parent block hash" is FALSE:
-   witness  begin(Pending 1); execute [07]; end (1, A); begin(Pending 2, parent (1, B)); execute [09]; end (2, C) *)
-Theorem C20_engine_unknown_parent_refuted : ~ unknown_parent_uses_block_hash.
-Proof. exact unknown_parent_uses_block_hash_refuted. Qed.
-Theorem C20_engine_unknown_parent_residual : forall (H : list N -> list N) (genesis : hash) (e : engine) (slot : N)
-  (p : block_id) (txs : list (list N)) (b : block_id),
+
+(* CURRENT code, all call histories: a block whose parent p was never begun as Known nor ended under that
+   identifier, while no block is still pending in p's slot, reports the fold from the parent BLOCK hash *)
+Theorem C20_engine_unknown_parent : forall (H : list N -> list N) (genesis : hash) (ops : list eop)
+  (slot : N) (p : block_id) (txs : list (list N)) (b : block_id),
+  fst b = slot -> existsb (mentions_block p) ops = false -> existsb (mentions_block b) ops = false ->
+  eng_get (eng_state H genesis true [] ops) (Pending (fst p)) = None ->
+  eng_run H genesis true [] (ops ++ [EBegin (Pending slot) (Some p); EExec (Pending slot) txs; EEnd b])
+  = eng_run H genesis true [] ops ++ [(b, N.of_nat (length txs), fold_txs H (snd p) txs)].
+Proof. exact current_unknown_parent_uses_block_hash. Qed.
+(* ... and a block that ENDED as (s, A) is never the seed of a child of (s, B), B <> A *)
+Theorem C20_engine_ended_block_never_seed : forall (H : list N -> list N) (genesis : hash) (ops : list eop)
+  (s : N) (A B : hash) (slot : N) (txs : list (list N)) (c : block_id),
+  bytes_eqb A B = false -> fst c = slot ->
+  existsb (mentions_block (s, A)) ops = false -> existsb (mentions_block (s, B)) ops = false ->
+  existsb (mentions_block c) (ops ++ [EEnd (s, A)]) = false ->
+  eng_run H genesis true [] ((ops ++ [EEnd (s, A)]) ++ [EBegin (Pending slot) (Some (s, B)); EExec (Pending slot) txs; EEnd c])
+  = eng_run H genesis true [] (ops ++ [EEnd (s, A)]) ++ [(c, N.of_nat (length txs), fold_txs H B txs)].
+Proof. exact current_ended_block_never_seed. Qed.
+Theorem C20_engine_end_clears_pending : forall H genesis e (b : block_id),
+  eng_get e (Known (fst b) (snd b)) = None ->
+  eng_get (fst (eng_step H genesis true e (EEnd b))) (Pending (fst b)) = None.
+Proof. exact end_clears_pending. Qed.
+(* a Known entry exists only for a block that was begun as Known or ended (both variants) *)
+Theorem C20_engine_known_only_if_mentioned : forall H genesis rekey ops e (p : block_id),
+  existsb (mentions_block p) ops = false -> eng_get e (Known (fst p) (snd p)) = None ->
+  eng_get (eng_state H genesis rekey e ops) (Known (fst p) (snd p)) = None.
+Proof. exact known_absent_unless_mentioned. Qed.
+(* PINNED tree (before fix 2f23043): the naive statement is FALSE, a pending block that ended under another
+   hash was taken for the parent; witness
+   begin(Pending 1); execute [07]; end (1, A); begin(Pending 2, parent (1, B)); execute [09]; end (2, C) *)
+Theorem C20_pinned_engine_unknown_parent_refuted : ~ unknown_parent_uses_block_hash false.
+Proof. exact pinned_unknown_parent_uses_block_hash_refuted. Qed.
+Theorem C20_engine_unknown_parent_residual : forall (H : list N -> list N) (genesis : hash) (rekey : bool) (e : engine)
+  (slot : N) (p : block_id) (txs : list (list N)) (b : block_id),
   fst b = slot -> eng_get e (Known (fst p) (snd p)) = None -> eng_get e (Pending (fst p)) = None ->
   eng_get e (Known (fst b) (snd b)) = None ->
-  eng_run H genesis e [EBegin (Pending slot) (Some p); EExec (Pending slot) txs; EEnd b]
+  eng_run H genesis rekey e [EBegin (Pending slot) (Some p); EExec (Pending slot) txs; EEnd b]
   = [(b, N.of_nat (length txs), fold_txs H (snd p) txs)].
 Proof. exact unknown_parent_residual. Qed.
+Example C20_current_engine_on_the_pinned_witness :
+  eng_run (fun x => x) [0] true []
+    ([EBegin (Pending 1) None; EExec (Pending 1) [[7]]; EEnd (1, [10])] ++
+     [EBegin (Pending 2) (Some (1, [11])); EExec (Pending 2) [[9]]; EEnd (2, [12])])
+  = [((1, [10]), 1, [0; 7]); ((2, [12]), 1, [11; 9])].
+Proof. exact current_engine_on_the_pinned_witness. Qed.
 
 (* non-vacuity: two keys that differ only in the very last bit (trie depth 51), a third in another cluster;
    fork, write to both sides, remove (collapsing the depth-51 chain): observations, isolation, canonical form *)
@@ -175,6 +212,11 @@ Print Assumptions C20_engine_seed_genesis.
 Print Assumptions C20_engine_seed_known_parent.
 Print Assumptions C20_engine_seed_fallback.
 Print Assumptions C20_engine_seed_pending_slot.
-Print Assumptions C20_engine_unknown_parent_refuted.
+Print Assumptions C20_engine_unknown_parent.
+Print Assumptions C20_engine_ended_block_never_seed.
+Print Assumptions C20_engine_end_clears_pending.
+Print Assumptions C20_engine_known_only_if_mentioned.
+Print Assumptions C20_pinned_engine_unknown_parent_refuted.
+Print Assumptions C20_current_engine_on_the_pinned_witness.
 Print Assumptions C20_engine_unknown_parent_residual.
 Print Assumptions C20_nonvacuous.
